@@ -255,3 +255,67 @@ func vhB2I(b bool) int {
 	}
 	return 0
 }
+
+// VH_C02_ring_large: the ring at the sizes the mailbox really uses (initial
+// capacity 16 / 64 / 256): a wrapped starting phase, then enough pushes to
+// cross one or two growth boundaries with pops interleaved at a symbolic
+// stride, compared item by item with a reference FIFO. Payloads of the first
+// items are symbolic, the rest concrete (distinct).
+func VH_C02_ring_large() {
+	sizes := []int64{16, 64, 256}
+	size := sizes[vrtChoose(len(sizes))]
+	q := New(size)
+	var ref []any
+	next := 0
+	push := func() {
+		var v any = 1000 + next
+		if next < 3 {
+			v = vrtInt()
+		}
+		next++
+		q.Push(v)
+		ref = append(ref, v)
+	}
+	pop := func() {
+		v, ok := q.Pop()
+		if len(ref) == 0 {
+			vrtAssert(!ok, "pop-matches-ref")
+			return
+		}
+		vrtAssert(ok && v == ref[0], "pop-matches-ref")
+		ref = ref[1:]
+	}
+	// wrap: advance head and tail by a symbolic phase
+	phase := []int{0, 1, int(size) / 2, int(size) - 1}[vrtChoose(4)]
+	for i := 0; i < phase; i++ {
+		push()
+		pop()
+	}
+	stride := 2 + vrtChoose(3) // one pop every `stride` pushes
+	total := int(size)*2 + 5
+	if size == 256 {
+		total = int(size) + 40
+	}
+	for i := 0; i < total; i++ {
+		push()
+		if i%stride == stride-1 {
+			pop()
+		}
+		vrtAssert(q.Length() == int64(len(ref)), "len-matches-ref")
+	}
+	if vrtChoose(2) == 1 {
+		n := int64(len(ref) / 2)
+		got, ok := q.PopMany(n)
+		vrtAssert(ok && int64(len(got)) == n, "popmany-matches-ref")
+		for i := range got {
+			vrtAssert(got[i] == ref[i], "popmany-matches-ref")
+		}
+		ref = ref[n:]
+	}
+	for len(ref) > 0 {
+		pop()
+	}
+	_, ok := q.Pop()
+	vrtAssert(!ok && q.Length() == 0, "drain-matches-ref")
+	vrtReach("large-ring")
+}
